@@ -23,6 +23,7 @@ fn bus_verdict<S: Setup>(prog: &Prog, p: &Pipeline<S>, cfg: &PackCfg) -> Result<
     let built = p.built.as_ref().ok_or("not built")?;
     let traces = p.traces.as_ref().ok_or("no traces")?;
     let recompose = prog.recompose_npo && S::D > 1;
+    let _rc = p3r_verif::fields::RecomposeCfg::set(prog.recompose_cfg());
     let events = guarded(|| S::bus(&built.circuit, traces, &cfg.packing(), recompose))
         .map_err(|e| format!("bus replay panic {}", panic_site(&e)))??;
     // Slots touched by non-primitive tables are not observable by this replay (their rows live
@@ -154,7 +155,7 @@ fn one<S: Setup>(
             ));
         } else if has_npo && upstream_imbalanced && !ours {
             // imbalance on slots only the plugin tables touch: visible only to the upstream debugger
-            let sig = "bus/npo-table-slot/upstream-debugger".to_string();
+            let sig = format!("bus/npo-table-slot/upstream-debugger/{}", p3r_verif::bus::npo_static_cause(&built.circuit));
             out.push(CaseResult::violated(
                 format!("{key}:cross"),
                 sig,
@@ -244,6 +245,7 @@ fn case<S: Setup>(seed: u64, idx: usize, tier: Tier) -> Vec<CaseResult> {
         size,
         connect_pct: 24,
         recompose_npo: matches!(S::D, 2 | 4 | 5) && rng.random_range(0..3u32) == 0,
+        recompose_variants: true,
         clean,
         ..Default::default()
     };
